@@ -54,14 +54,16 @@ USM = ["services", "user-session-manager"]
 FW_ACLS = ["internal_inbound_acl", "internal_outbound_acl", "dmz_inbound_acl", "dmz_outbound_acl",
            "external_inbound_acl", "external_outbound_acl"]
 
+# the four lists have pairwise DIFFERENT lengths (2, 3, 4, 1) and the generators use the LAST listed element of each,
+# so a space that sizes one field from another field's list cannot go unnoticed
 IP_LISTED = ["192.168.1.10", "192.168.1.11"]
 IP_UNLISTED = "172.16.9.9"
-WC_LISTED = ["0.0.0.1", "0.0.0.255"]
-WC_UNLISTED = "0.0.255.255"
-PORT_LISTED = ["HTTP", "POSTGRES_SERVER"]  # 80, 5432
-PORT_LISTED_NUM = [80, 5432]
-PORT_UNLISTED_NUM = 21
-PROTO_LISTED = ["ICMP", "TCP"]
+WC_LISTED = ["0.0.0.1", "0.0.0.255", "0.0.255.255"]
+WC_UNLISTED = "0.255.255.255"
+PORT_LISTED = ["HTTP", "POSTGRES_SERVER", "DNS", "FTP"]  # 80, 5432, 53, 21
+PORT_LISTED_NUM = [80, 5432, 53, 21]
+PORT_UNLISTED_NUM = 22
+PROTO_LISTED = ["TCP"]
 PROTO_UNLISTED = "udp"
 ACL_LISTS = {"ip_list": IP_LISTED, "wildcard_list": WC_LISTED, "port_list": PORT_LISTED, "protocol_list": PROTO_LISTED}
 ACL_LISTS_EMPTY = {"ip_list": [], "wildcard_list": [], "port_list": [], "protocol_list": []}
@@ -480,9 +482,9 @@ def acl_rule(action, proto, sip, swc, sport, dip, dwc, dport) -> Dict:
 
 
 def ex_acl(E) -> Iterable[Dict]:
-    ips = [None, IP_LISTED[1], IP_UNLISTED]
-    wcs = [None, WC_LISTED[1], WC_UNLISTED]
-    pts = [None, PORT_LISTED_NUM[1], PORT_UNLISTED_NUM]
+    ips = [None, IP_LISTED[-1], IP_UNLISTED]
+    wcs = [None, WC_LISTED[-1], WC_UNLISTED]
+    pts = [None, PORT_LISTED_NUM[-1], PORT_UNLISTED_NUM]
     prs = [None, "tcp", PROTO_UNLISTED]
     table = R0 + ["acl", "acl"]
     for lists, nr in ((ACL_LISTS, 3), (ACL_LISTS_EMPTY, 1), (ACL_LISTS, 24)):
